@@ -17,6 +17,9 @@ RULE = ("complete layer: every well-formed document with <= 3 nodes over keys {a
         "to the same segments) and get_nodes(mustexist=False) on a fresh copy when the model's optional evaluation creates nothing.  "
         "Observable: the ordered list of result addresses (from the identity of NodeCoords.parent + parentref; virtual slice lists as "
         "lists of member addresses) or the error class.  Direct check: implementation = Spec.select (proved equal to the model).  "
+        "Thorough sizes: 700 000 random cases (quick 60 000) and, next to the complete layers (untouched), 120 of the 300 "
+        "seeded anchored variants in the full two-segment product (trimmed from 1 000 000 / 300: the run took 30.4 min at "
+        "load 40-60; the complete layers are not sampled).  "
         "distinct_nontrivial = distinct (document, path) whose required query returns at least one node.  Collector layer (wave w3): "
         "seeded-random collector paths (1-4 operands joined by + - &, operands = straight paths to existing nodes, related paths, "
         "wildcards, slices, searches, nested collectors; optional index / slice / key tail or key prefix) over hashes sharing keys and "
@@ -25,7 +28,10 @@ RULE = ("complete layer: every well-formed document with <= 3 nodes over keys {a
         "the document after get_nodes(mustexist=True) and after exists() - all compared with the state-passing model W3.requiredM.")
 
 
-def build_jobs(chk, opts, nrand_quick=60000, nrand_thorough=1000000, grid=False):
+THOROUGH_ANCH2 = 120      # anchored variants (a seeded sample, not part of the complete layer) in the thorough two-segment product
+
+
+def build_jobs(chk, opts, nrand_quick=60000, nrand_thorough=700000, grid=False):
     rng = random.Random(chk.seed)
     tier = chk.tier
     jobs = []
@@ -45,7 +51,7 @@ def build_jobs(chk, opts, nrand_quick=60000, nrand_thorough=1000000, grid=False)
         nrand = nrand_quick
     else:
         two_full = [[a, b] for a in ev.VOCAB for b in ev.VOCAB]
-        for d in docs3s + anch:
+        for d in docs3s + anch[:THOROUGH_ANCH2]:
             for p in two_full:
                 cases.append((d, p))
         for d in docs3:
@@ -53,7 +59,7 @@ def build_jobs(chk, opts, nrand_quick=60000, nrand_thorough=1000000, grid=False)
                 cases.append((d, p))
         nrand = nrand_thorough
     chk.extra_cov["exhaustive_bound"] = ("%d documents (<= 3 nodes) x %d one-segment paths; %d documents x %d two-segment paths" % (
-        len(docs3) + len(anch), len(one), len(docs3s) + 60 if tier == "quick" else len(docs3s) + len(anch),
+        len(docs3) + len(anch), len(one), len(docs3s) + 60 if tier == "quick" else len(docs3s) + len(anch[:THOROUGH_ANCH2]),
         len(two_core) if tier == "quick" else len(ev.VOCAB) ** 2)
         + ("" if tier == "quick" else "; %d documents x %d core two-segment paths" % (len(docs3), len(two_core))))
     chk.extra_cov["exhaustive_cases"] = len(cases)
